@@ -19,7 +19,7 @@ function exprCases() {
   const W = wxs('m', 'exports.f = function(a){ return "<" + a + ">" }')
   const shapes = M.shapes(2)
   const lits = [...M.NUMBER_LITERALS, ...M.STRING_LITERALS, ...M.KEYWORD_LITERALS].map((t) => M.lit(t))
-  const withLits = [...shapes, ...lits, ...lits.map((l) => M.bin('+', l, M.id('a'))), ...lits.map((l) => M.bin('+', M.id('a'), l)), ...lits.map((l) => M.arr([l])), ...lits.map((l) => M.cond(M.id('a'), l, M.id('b')))]
+  const withLits = [...shapes, ...lits, ...lits.map((l) => M.bin('+', l, M.id('a'))), ...lits.map((l) => M.bin('+', M.id('a'), l)), ...lits.map((l) => M.arr([l])), ...lits.map((l) => M.cond(M.id('a'), l, M.id('b'))), ...lits.map((l) => M.mem(l, 'length')), ...lits.map((l) => M.idx(l, M.id('a'))), ...lits.map((l) => M.call(M.mem(l, 'toString'), []))]
   withLits.forEach((e, i) => {
     const s = M.printMin(e)
     if (s.includes('"') && s.includes("'")) return
@@ -52,6 +52,13 @@ function allCases(thorough) {
   // single-deviation mutants of the first well-formed templates (ill-formed inputs)
   const seeds = base.filter((c) => Object.keys(c.files).length === 0).slice(0, thorough ? 400 : 120).map((c) => T.print(c.main).text).filter((t) => t.length < 90)
   for (const m of mutants(seeds)) cases.push(m)
+  // text pieces next to each other, with and without an (unprinted) comment between them: braces must not join
+  const PIECES = ['{', '}', '{{a}}', 'x{', '{x', '}}', '&#123;', 'a', '{{"{"}}']
+  const SEPS = ['', '<!-- c -->']
+  for (const p1 of PIECES) for (const s1 of SEPS) for (const p2 of PIECES) {
+    cases.push({ name: `adjacent-text:${p1}${s1}${p2}`, raw: `<div>${p1}${s1}${p2}</div>` })
+    for (const s2 of SEPS) for (const p3 of PIECES) cases.push({ name: `adjacent-text:${p1}${s1}${p2}${s2}${p3}`, raw: `<div>${p1}${s1}${p2}${s2}${p3}</div>` })
+  }
   return cases
 }
 
@@ -100,7 +107,7 @@ function mergeText(tree) {
 }
 
 function classify(cs) {
-  if (cs.raw !== undefined) return 'mutant'
+  if (cs.raw !== undefined) return cs.name.startsWith('adjacent-text') ? 'adjacent-text' : 'mutant'
   return cs.name.replace(/\(.*/, '').replace(/:.*/, (m) => (cs.exprOnly ? '' : m))
 }
 
